@@ -178,6 +178,16 @@ def holds(test, truth):
             return _elementwise(test.args[0], True)
         if name in ANY_FUNCS and not truth and test.args:
             return _elementwise(test.args[0], False)
+    if isinstance(test, ast.Call) and isinstance(test.func, ast.Attribute) \
+            and not test.args and test.func.attr in ("any", "all") and \
+            isinstance(test.func.value, (ast.Compare, ast.BoolOp,
+                                         ast.UnaryOp)):
+        # method form: (a >= b).any()
+        if test.func.attr == "all" and truth:
+            return holds(test.func.value, True)
+        if test.func.attr == "any" and not truth:
+            return holds(test.func.value, False)
+        return []
     if isinstance(test, (ast.Name, ast.Attribute, ast.Subscript, ast.Call)):
         # bare truthiness: `if flag:` / `if not arr.flags.writeable:`
         return [Atom(test, "truthy" if truth else "falsy",
@@ -199,17 +209,42 @@ def raise_guards(fnode):
     `if <test>: ...raise` whose body always raises, plus asserts
     (atoms holding when the assertion passes)."""
     out = []
+    flags = flag_table(fnode)
+
+    def H(test, truth):
+        if flags and names_in(test) & set(flags):
+            test = expand(test, flags, depth=2)
+        return holds(test, truth)
     for st in stmts_of(fnode):
         if isinstance(st, ast.If) and block_always_raises(st.body) \
                 and not st.orelse:
-            out.append((st, holds(st.test, False)))
+            out.append((st, H(st.test, False)))
         elif isinstance(st, ast.If) and st.orelse \
                 and block_always_raises(st.orelse) \
                 and not block_always_raises(st.body):
-            out.append((st, holds(st.test, True)))
+            out.append((st, H(st.test, True)))
         elif isinstance(st, ast.Assert):
-            out.append((st, holds(st.test, True)))
+            out.append((st, H(st.test, True)))
     return out
+
+
+def flag_table(fnode):
+    """{name: boolean expression} for locals bound once to a comparison /
+    boolean combination / any-all reduction (`bad = np.any(a >= n)`), so
+    that `if bad: raise` is read as a guard on the comparison."""
+    table = {}
+    for name, v in single_defs(fnode).items():
+        if isinstance(v, (ast.Compare, ast.BoolOp)) or (
+                isinstance(v, ast.UnaryOp) and isinstance(v.op, ast.Not)):
+            table[name] = v
+        elif isinstance(v, ast.Call):
+            nm = dotted(v.func) or ""
+            if nm in ALL_FUNCS or nm in ANY_FUNCS or (
+                    isinstance(v.func, ast.Attribute) and not v.args
+                    and v.func.attr in ("any", "all")
+                    and isinstance(v.func.value, ast.Compare)):
+                table[name] = v
+    return table
 
 
 def guard_kind(st):
@@ -218,3 +253,122 @@ def guard_kind(st):
 
 def is_zero(node):
     return const_int(node) == 0
+
+
+# ---------------------------------------------------------------------
+# helpers for refactoring-tolerant matching
+# ---------------------------------------------------------------------
+import copy as _copy
+
+
+class _Subst(ast.NodeTransformer):
+    def __init__(self, table):
+        self.table = table
+
+    def visit_Name(self, node):
+        if isinstance(node.ctx, ast.Load) and node.id in self.table:
+            return _copy.deepcopy(self.table[node.id])
+        return node
+
+
+def single_defs(fnode, defs=None):
+    """{name: value expr} for locals bound exactly once by a plain assignment
+    (not a parameter, loop or augmented assignment)."""
+    defs = defs if defs is not None else local_defs(fnode)
+    out = {}
+    for name, ds in defs.items():
+        real = [d for d in ds if d.kind != "param"]
+        if len(real) == 1 and real[0].kind == "assign" and \
+                real[0].index is None and real[0].value is not None and \
+                not real[0].elem:
+            if len(ds) == len(real):
+                out[name] = real[0].value
+    return out
+
+
+def expand(expr, table, depth=3):
+    """expr with single-definition locals replaced by their definitions."""
+    cur = _copy.deepcopy(expr)
+    for _ in range(depth):
+        new = _Subst(table).visit(_copy.deepcopy(cur))
+        ast.fix_missing_locations(new)
+        if ast.dump(new) == ast.dump(cur):
+            break
+        cur = new
+    return cur
+
+
+def simple_return(fnode):
+    """(params, return expr, local single defs) if the function is a
+    straight-line helper: docstring, plain assignments, one final return."""
+    body = [s for s in fnode.body
+            if not (isinstance(s, ast.Expr) and isinstance(s.value, ast.Constant))]
+    if not body or not isinstance(body[-1], ast.Return) or \
+            body[-1].value is None:
+        return None
+    for s in body[:-1]:
+        if not isinstance(s, (ast.Assign, ast.AnnAssign)):
+            return None
+    a = fnode.args
+    params = [x.arg for x in a.posonlyargs + a.args]
+    table = single_defs(fnode)
+    return params, expand(body[-1].value, table), table
+
+
+def inline_helper_call(call, callee_fnode, drop_self=False):
+    """Expression computed by `call` if the callee is a straight-line helper,
+    with parameters replaced by the call's arguments; else None."""
+    sr = simple_return(callee_fnode)
+    if sr is None:
+        return None
+    params, ret, _ = sr
+    if drop_self and params and params[0] in ("self", "cls"):
+        params = params[1:]
+    table = {}
+    for p, a in zip(params, call.args):
+        table[p] = a
+    for k in call.keywords:
+        if k.arg in params:
+            table[k.arg] = k.value
+    if len(table) < len([p for p in params]):
+        # defaults not modelled
+        a = callee_fnode.args
+        ndef = len(a.defaults)
+        if len(table) < len(params) - ndef:
+            return None
+        allp = [x.arg for x in a.posonlyargs + a.args]
+        for p, dv in zip(allp[len(allp) - ndef:], a.defaults):
+            if p in params and p not in table:
+                table[p] = dv
+    return expand(ret, table, depth=1)
+
+
+def def_values(module, fnode, name, defs=None):
+    """Expressions a local name can be bound to, with tuple unpacking from
+    literal tuples and from straight-line helper functions resolved
+    (`gx, gy, gz = _grid_size(...)` -> the first element the helper
+    returns, parameters substituted)."""
+    defs = defs if defs is not None else local_defs(fnode)
+    out = []
+    for d in defs.get(name, []):
+        v = d.value
+        if v is None or d.kind == "aug":
+            continue
+        if d.index is None or d.elem:
+            out.append(v)
+            continue
+        if isinstance(v, ast.Name):
+            for d2 in defs.get(v.id, []):
+                if isinstance(d2.value, (ast.Tuple, ast.List)) and \
+                        d.index < len(d2.value.elts):
+                    out.append(d2.value.elts[d.index])
+            continue
+        if isinstance(v, ast.Call) and module is not None:
+            nm = dotted(v.func)
+            callee = module.functions.get(nm) if nm else None
+            if callee is not None:
+                inl = inline_helper_call(v, callee.node)
+                if isinstance(inl, (ast.Tuple, ast.List)) and \
+                        d.index < len(inl.elts):
+                    out.append(inl.elts[d.index])
+    return out
